@@ -98,6 +98,22 @@ def async_probe(ctx, only=None):
     if r is None:
         return
     rc, out = r
+
+    def off(o):
+        """lines that differ from what the adapters do on a healthy machine (the reactor is given 1.5-2 s per situation)"""
+        bad_lines = []
+        for l in o.split('\n'):
+            f = dict(x.split('=', 1) for x in l.split()[2:] if '=' in x)
+            if (f.get('first') == 'Pending' and f.get('wakes0') == f.get('wakes1')) or (l.startswith('mio M') and not l.startswith('mio M2') and f.get('events') == '0'):
+                bad_lines.append(' '.join(l.split()[:2]))
+        return sorted(bad_lines)
+    if off(out):
+        # a starved machine must not look like a stranded poller: the same lines have to come out of two more runs, alone
+        d = os.path.join(common.BUILD, 'c11_async')
+        again = [common.sh([os.path.join(d, 'target', 'debug', 'p_c11_async')], timeout=120)[1] for _ in range(2)]
+        if not all(off(a) == off(out) for a in again):
+            ctx.coverage['async_unconfirmed_on_rerun'] = off(out)
+            out = min(again, key=lambda a: len(off(a)))
     rows = {}
     for l in out.split('\n'):
         t = l.split()
